@@ -34,7 +34,10 @@ What a thread's remote side will do (handshake completes / fails / dial fails, w
 announces) is part of the thread's static data, so that a run is a function of the schedule alone.
 
 `strset.Set` is a list with `ins` (Add: no effect if present), `del` (Remove) and `length` (Size); `peers` is an
-association list.  Addresses are `(ip, port)` pairs of naturals (`ParseIPAddr` is the first projection).
+association list.  Addresses are the strings the Go code stores (`conn.RemoteAddr().String()`, the dialled address), as
+character lists; `ipOf` is the function the code applies to them (`common.ParseIPAddr` = host part of
+`net.SplitHostPort`, `""` on error), mirrored on strings: `1.2.3.4:80 ↦ 1.2.3.4`, `[fe80::1%eth0]:80 ↦ fe80::1%eth0`.
+The theorems quantify over arbitrary address strings.
 -/
 namespace OntVerif.Model.ConnCtl
 
@@ -48,14 +51,35 @@ deriving DecidableEq, Repr
 inductive Fate | ok | hsFail | dialFail
 deriving DecidableEq, Repr
 
-abbrev Addr := Nat × Nat
+/-- an address string as the controller stores it -/
+abbrev Addr := List Char
+/-- the ip string `ParseIPAddr` extracts -/
+abbrev Ip := List Char
+
+/-- `net.SplitHostPort(s)`'s host (`""` when it returns an error), i.e. `common.ParseIPAddr`:
+`[host]:port` with no further `[`, `]` and no `:` in the port, or `host:port` with exactly one `:` and no bracket -/
+def ipOf (s : Addr) : Ip :=
+  match s with
+  | '[' :: rest =>
+    let h := rest.takeWhile (· != ']')
+    match rest.dropWhile (· != ']') with
+    | ']' :: ':' :: p =>
+      if h.contains '[' || p.contains '[' || p.contains ']' || p.contains ':' then [] else h
+    | _ => []
+  | _ =>
+    let h := s.takeWhile (· != ':')
+    match s.dropWhile (· != ':') with
+    | ':' :: p =>
+      if p.contains ':' || s.contains '[' || s.contains ']' then [] else h
+    | _ => []
 
 structure Thread where
   dir : Dir
-  ip : Nat
-  port : Nat
-  /-- the sync port the remote announces in its version message (`PeerInfo.Port`) -/
-  lport : Nat
+  /-- remote address string (`conn.RemoteAddr().String()` / the dialled address) -/
+  addr : Addr
+  /-- `PeerInfo.RemoteListenAddress()` = `isHandWithSelf`'s node address: ParseIPAddr(addr) + ":" + the sync port the
+  remote announces (no brackets are added for an IPv6 host — as the code does it) -/
+  listenAddr : Addr
   /-- the peer id the remote announces; `0` stands for the controller's own id -/
   pid : Nat
   fate : Fate
@@ -64,16 +88,15 @@ structure Thread where
   cid : Nat := 0
 deriving Repr
 
-def Thread.addr (t : Thread) : Addr := (t.ip, t.port)
-/-- `PeerInfo.RemoteListenAddress` -/
-def Thread.listenAddr (t : Thread) : Addr := (t.ip, t.lport)
+/-- `common.ParseIPAddr(addr)` -/
+def Thread.ip (t : Thread) : Ip := ipOf t.addr
 
 structure Cfg where
   maxIn : Nat
   maxIp : Nat
   maxOut : Nat
   /-- `ReservedPeers`: `none` = `AllAddrFilter`, `some l` = `StaticReserveFilter` over the ips `l` -/
-  rsv : Option (List Nat) := none
+  rsv : Option (List Ip) := none
 deriving Repr
 
 def Cfg.max (c : Cfg) : Dir → Nat
@@ -85,7 +108,7 @@ def ins (a : Addr) (l : List Addr) : List Addr := if a ∈ l then l else a :: l
 /-- `Set.Remove` -/
 def del (a : Addr) (l : List Addr) : List Addr := l.filter (fun x => x != a)
 /-- number of recorded addresses with the given ip (`getInboundCountWithIp`) -/
-def cnt (ip : Nat) (l : List Addr) : Nat := (l.filter (fun x => x.1 == ip)).length
+def cnt (ip : Ip) (l : List Addr) : Nat := (l.filter (fun x => ipOf x == ip)).length
 
 def upd (f : Dir → List Addr) (d : Dir) (g : List Addr → List Addr) : Dir → List Addr :=
   fun d' => if d' = d then g (f d') else f d'
@@ -123,7 +146,7 @@ deriving DecidableEq, Repr
 def slots (s : State) (d : Dir) : Nat := (s.bound d).length + (s.pend d).length
 
 /-- `getInboundCountWithIp` -/
-def ipSlots (s : State) (ip : Nat) : Nat := cnt ip (s.bound .inb) + cnt ip (s.pend .inb)
+def ipSlots (s : State) (ip : Ip) : Nat := cnt ip (s.bound .inb) + cnt ip (s.pend .inb)
 
 /-- `hasBoundAddr` -/
 def hasAddr (s : State) (a : Addr) : Bool :=
@@ -156,7 +179,7 @@ def peersSet (ps : List (Nat × Nat × Addr)) (pid : Nat) (v : Nat × Addr) : Li
 /-- `checkPeerIdAndIP`: a connection with this peer id exists from a different ip -/
 def peerIpMismatch (ps : List (Nat × Nat × Addr)) (t : Thread) : Bool :=
   match peersGet ps t.pid with
-  | some (_, old) => old.1 != t.ip
+  | some (_, old) => ipOf old != t.ip
   | none => false
 
 /-- what every exit of `Connect` and every failure exit of `AcceptConnect` after a passed check undoes:
@@ -238,7 +261,7 @@ and not yet closed) -/
 def established (s : State) (d : Dir) : Nat :=
   (s.threads.filter (fun t => t.dir = d ∧ t.pc = .saved)).length
 
-def establishedIp (s : State) (ip : Nat) : Nat :=
+def establishedIp (s : State) (ip : Ip) : Nat :=
   (s.threads.filter (fun t => t.dir = .inb ∧ t.pc = .saved ∧ t.ip = ip)).length
 
 /-- stepping thread `i` now would be a repeated `Close()` of a stale `Conn` handle -/
